@@ -21,10 +21,12 @@ type producer struct {
 	nice bool   // small positive integer
 }
 
-var c02Prelude = bn.KwFun + " f() { " + bn.KwReturn + " 1; }\n" + bn.KwVar + " arr = [1, 2];\n" + bn.KwVar + " obj = {a: 1};\n"
+var c02Prelude = bn.KwFun + " f() { " + bn.KwReturn + " 1; }\n" + bn.KwVar + " arr = [1, 2];\n" + bn.KwVar + " obj = {a: 1};\n" +
+	// nil however it comes about: a bare return, a body that ends, a variable never given a value
+	bn.KwFun + " bare() { " + bn.KwReturn + "; }\n" + bn.KwFun + " fell() { }\n" + bn.KwVar + " unset;\n"
 
 var c02Producers = []producer{
-	{"nil", "nil", false}, {bn.KwTrue, "bool", false}, {bn.KwFalse, "bool", false},
+	{"nil", "nil", false}, {"bare()", "nil", false}, {"fell()", "nil", false}, {"unset", "nil", false}, {bn.KwTrue, "bool", false}, {bn.KwFalse, "bool", false},
 	{"0", "number", false}, {"(-0)", "number", false}, {"1", "number", true}, {"(-1)", "number", false}, {"2", "number", true}, {"3", "number", true},
 	{"0.5", "number", false}, {"2.5", "number", false}, {"(-2.5)", "number", false}, {"63", "number", true}, {"64", "number", true}, {"65", "number", true},
 	{"2147483648", "number", false}, {"9007199254740992", "number", false}, {"9007199254740994", "number", false},
@@ -107,7 +109,8 @@ func TestC02(t *testing.T) {
 						if !c.Mine(k) {
 							continue
 						}
-						src := c02Prelude + bn.KwPrint + " " + l.text + " " + op + " " + r.text + ";\n"
+						// the power -1 shows which zero a zero result is (the sign of a printed zero is not asserted; 1 / 0 is an error)
+						src := c02Prelude + bn.KwPrint + " " + l.text + " " + op + " " + r.text + ";\n" + bn.KwPrint + " (" + l.text + " " + op + " " + r.text + ") ** -1;\n"
 						c.c02Program(s, "matrix-binary", src, !(l.nice && r.nice), true, "op "+op, l.kind+" x "+r.kind)
 					}
 				}
@@ -301,6 +304,9 @@ func TestC02(t *testing.T) {
 		c.Rapid("rand-expr", n, func(rt *rapid.T, s *Sub) {
 			e := c02Expr(rt, rapid.IntRange(1, 5).Draw(rt, "depth"))
 			src := c02Prelude + bn.KwPrint + " " + e + ";\n"
+			if rapid.Bool().Draw(rt, "reciprocal") {
+				src += bn.KwPrint + " (" + e + ") ** -1;\n"
+			}
 			c.c02Program(s, "rand-expr", place(src, drawPlacement(rt)), true, false)
 		})
 	})
